@@ -29,6 +29,20 @@ class Sentinel:
         return '%s%d' % (self.tag, self.id)
 
 
+class EqSentinel(Sentinel):
+    """a value EQUAL to every other instance with the same tag and id, and never the same object: separately built equal defaults"""
+    __slots__ = ()
+
+    def __eq__(self, other):
+        return isinstance(other, Sentinel) and (self.tag, self.id) == (other.tag, other.id)
+
+    def __ne__(self, other):
+        return not self == other
+
+    def __hash__(self):
+        return hash((self.tag, self.id))
+
+
 DV = {i: Sentinel('D', i) for i in range(2, 40)}
 AN = {i: Sentinel('A', i) for i in range(1, 40)}
 GLOBALS_BASE = {}
